@@ -189,6 +189,9 @@ def main():
     S.model_check(rep, MODELS[a.tier])
     # the property is not vacuous: a faulty variant of the model is refuted
     S.model_refutes(rep, 'HierBad', 'MC_HierBad_stale.cfg', ['Chain', 'NoStaleAdoption'])
+    for v in ('noskip', 'lower'):
+        S.model_refutes(rep, 'DdminBad', f'MC_DdminBad_{v}.cfg',
+                        ['Chain', 'NoStaleAdoption'])
     r = random.Random(common.seed() + 5)
     cfgs = make_configs(r, NRUNS[a.tier])
     items = S.validate(rep, S.execute(cfgs, label='c05'))
